@@ -16,6 +16,7 @@ import RTV.Gen.CharTables
   guid.score <cps>                           -> integer score 0..100 (the code returns score/100)
   re.findcap <name> <group number> <real|ascii> <cps>  -> a:b:cs:ce;…  (`-:-` when the group did not take part)
   url.extract <cps>                          -> start:len:textcps:data;…  | err:Other   (BaseURLExtractor.extract)
+  phone.extract <cps>                        -> start:len:textcps:data;…   (BasePhoneNumberExtractor.extract, English)
   spec.url <cps>                             -> typecps:start:end:textcps:valuecps;…   (recognize_url)
   spec.ip <en|zh> <cps>                      -> typecps:textcps:valuecps;…   (recognize_ip_address, runner fields)
   spec.guid <cps>                            -> typecps:textcps:valuecps:scorecps;…
@@ -101,6 +102,10 @@ def hUrlExtract : Handler
     | none => "err:Other"
   | _ => "bad-op"
 
+def hPhoneExtract : Handler
+  | [s] => showERs (phoneExtract genSeqEnv (parseCps s))
+  | _ => "bad-op"
+
 def hSpecUrl : Handler
   | [s] => ";".intercalate ((urlModelRun genSeqEnv (parseCps s)).map fun (t, a, b, x, v) =>
       s!"{showCps t}:{a}:{b}:{showCps x}:{showCps v}")
@@ -136,6 +141,7 @@ def dispatchRe (op : String) (args : List String) : Option String :=
   | "re.findcap" => some (hReFindCap args)
   | "url.extract" => some (hUrlExtract args)
   | "spec.url" => some (hSpecUrl args)
+  | "phone.extract" => some (hPhoneExtract args)
   | "spec.ip" => some (hSpecIp args)
   | "spec.guid" => some (hSpecGuid args)
   | "spec.bool" => some (hSpecBool args)
